@@ -147,3 +147,61 @@ Proof.
   - change (s_ign (set_m s1 mNormal)) with (s_ign s1). rewrite Hign. simpl. rewrite andb_false_r. reflexivity.
   - rewrite Hign. simpl. rewrite andb_false_r. reflexivity.
 Qed.
+
+(* ---------- the whole stream ---------- *)
+(* piece = complete lines ++ one last complete line, and that last line does not end in a binary operator or comma *)
+Definition no_op_cut (piece rest : list N) (c : chunk) : Prop :=
+  exists lines L, piece = concat lines ++ L /\ Forall line_ok lines /\ line_ok L /\
+    let '(r, d) := rrun RCode 0 (concat lines) (peek (L ++ rest)) in ~ ends_in_op r d L (peek rest).
+
+Lemma continuation_kept inp allc v1 cs st :
+  bare_hash RCode inp = false -> read_stream allc v1 (split_nl inp) = (cs, st) -> cuts no_op_cut inp cs.
+Proof.
+  intros H E. destruct (read_stream_spec inp allc v1 H) as (cs' & A & _ & C).
+  rewrite A in E. injection E as <- _.
+  eapply cuts_impl; [|exact C]. intros a b c (consumed & d & o & _ & -> & _ & _ & Hci).
+  destruct Hci as (c0 & L & sL & bufL & s1 & acc1 & -> & Hci).
+  exists c0, L. rewrite concat_app. simpl. rewrite app_nil_r. split; [reflexivity|].
+  destruct (rrun RCode 0 (concat c0) (peek (L ++ b))) as [rL dL].
+  destruct Hci as (X1 & X2 & X3 & X4 & X5 & X6 & X7 & X8 & Hrun & _ & Hig & _).
+  split; [exact X7|]. split; [exact X8|].
+  intros Hop. destruct (line_op_ign L b sL _ rL dL s1 acc1 o X8 X1 X2 X3 X4 X5 X6 Hop Hrun) as [T _]. congruence.
+Qed.
+
+Lemma quiet_rrun_depth t : forall r d after, quiet r t after = true -> snd (rrun r d t after) = d.
+Proof.
+  induction t as [|ch t IH]; intros r d after H; [reflexivity|].
+  simpl in H. apply andb_true_iff in H. destruct H as [H1 H2].
+  rewrite rrun_cons. rewrite (IH _ _ _ H2). eapply quiet1_depth; eauto.
+Qed.
+
+(* no non-final chunk ends (up to white space and comments) in an opening bracket that is met in code at depth >= 0 *)
+Definition no_open_cut (piece rest : list N) (c : chunk) : Prop :=
+  forall a op t d0, piece = a ++ op :: t -> classify op = COpen ->
+    rrun RCode 0 a (Some COpen) = (RCode, d0) -> 0 <= d0 -> quiet RCode t (peek rest) = true -> False.
+
+Lemma bracket_kept inp allc v1 cs st :
+  bare_hash RCode inp = false -> read_stream allc v1 (split_nl inp) = (cs, st) -> cuts no_open_cut inp cs.
+Proof.
+  intros H E. pose proof (never_inside inp allc v1 cs st H E) as C.
+  eapply cuts_impl; [|exact C]. intros piece rest c (d & Hr & Hd) a op t d0 -> Hop Ha Hd0 HQ.
+  rewrite rrun_app in Hr. simpl app in Hr. simpl peek in Hr. rewrite Hop, Ha in Hr.
+  rewrite rrun_cons, Hop in Hr. simpl rstep in Hr. simpl rdepth_step in Hr.
+  pose proof (quiet_rrun_depth t RCode (d0 + 1) (peek rest) HQ) as Hq. rewrite Hr in Hq. simpl in Hq. lia.
+Qed.
+
+(* the keyword rule, as far as proved: where a chunk was cut the keyword test had said no *)
+Definition kw_checked (v1 : bool) (piece rest : list N) (c : chunk) : Prop :=
+  exists first last, (0 <=? first) && lastIsKw v1 (c_src c) first last = false.
+
+Lemma keyword_checked inp allc v1 cs st :
+  bare_hash RCode inp = false -> read_stream allc v1 (split_nl inp) = (cs, st) -> cuts (kw_checked v1) inp cs.
+Proof.
+  intros H E. destruct (read_stream_spec inp allc v1 H) as (cs' & A & _ & C).
+  rewrite A in E. injection E as <- _.
+  eapply cuts_impl; [|exact C]. intros a b c (consumed & d & o & Ho & -> & _ & _ & Hci).
+  destruct Hci as (c0 & L & sL & bufL & s1 & acc1 & -> & Hci).
+  destruct (rrun RCode 0 (concat c0) (peek (L ++ b))) as [rL dL].
+  destruct Hci as (_ & _ & _ & _ & _ & _ & _ & _ & _ & _ & _ & _ & Hkw).
+  exists (s_first s1), (s_last s1). rewrite <- Ho. exact Hkw.
+Qed.
